@@ -29,3 +29,8 @@ def run(ctx):
     ctx.replay(behs, pre, observe, ordered=True, label="edges")
     w = ctx.gen_walks("MCCsdo", "C19_walk.cfg", num=60 if q else 2500, depth=40, timeout=2000)
     ctx.replay(w, pre, observe, ordered=True, label="walks")
+    # direction code -> spec: a PRNG application with the harness's built-in SDO server, requests also from inside the
+    # completion callback; recorded traces validated by TLC against CoCsdoTrace
+    import csdo_trace
+    ctx.assumptions.append("recorded traces (direction code -> spec): sizes 1..50 plus {100,255,256,259,263,264,500,2000}, timeouts {0,2,3,5,9} ms, server answers conforming or one of six deviations at random points, random idle gaps, requests issued from inside the completion callback (refused or accepted: both allowed, an accepted one must then complete like any other)")
+    csdo_trace.run(ctx, 1200 if q else 40000)
